@@ -112,6 +112,120 @@ Section EVAL.
   Definition write_through (d : dloc) (o : obj) (opname : string) : prog unit :=
     ok <- Prim (PWrite d o) ;; if ok : bool then Ret tt else dispatch_error opname.
 
+  Fixpoint add_captures (l : list (string * dloc)) : prog unit :=
+    match l with [] => Ret tt | (k, v) :: r => add_object k v ;;; add_captures r end.
+  Fixpoint add_params (ps : list string) (vs : list dloc) : prog unit :=
+    match ps, vs with
+    | p :: pr, v :: vr => (if String.eqb p "this" then Ret tt else add_object p v) ;;; add_params pr vr
+    | _, _ => Ret tt
+    end.
+
+  (* detail::eval_function: new frame; this, captures, parameters in that order; `return` ends here *)
+  Definition call_closure (cl : closure) (args : list dloc) (body : ast) : prog dloc :=
+    cand <- Prim PThisCandidate ;;
+    let this_obj := match cand with Some d => Some d | None => match args with a :: _ => Some a | [] => None end end in
+    Framed (
+      (match this_obj with
+       | Some t => if cl_this_capture cl then Ret tt else add_object "this" t
+       | None => Ret tt
+       end) ;;;
+      add_captures (cl_caps cl) ;;;
+      add_params (cl_params cl) args ;;;
+      on_fail (Ev body) (fun f => match f with FRet d => Ret d | _ => Fail f end)).
+
+  (* ---- declared parameter types (Param_Types::match) *)
+  Definition script_type_of (o : option obj) : string :=
+    match o with
+    | Some (ONum tn _ _) =>
+        if String.eqb tn "uint" then "unsigned_int" else if String.eqb tn "ulong" then "unsigned_long" else if String.eqb tn "llong" then "long_long"
+        else if String.eqb tn "ullong" then "unsigned_long_long" else if String.eqb tn "ldouble" then "long_double" else tn
+    | Some (OBool _) => "bool" | Some (OStr _) => "string" | Some (OVec _) => "Vector" | Some (OMap _) => "Map"
+    | Some (OFun _) => "Function" | Some (ODyn _ _) => "Dynamic_Object" | Some OVoid => "void" | Some (OExc st _ _) => st | None => ""
+    end.
+  Definition arith_type_names : list string :=
+    ["int"; "double"; "float"; "long"; "long_double"; "unsigned_int"; "unsigned_long"; "long_long"; "unsigned_long_long"; "size_t"; "char";
+     "int8_t"; "int16_t"; "int32_t"; "int64_t"; "uint8_t"; "uint16_t"; "uint32_t"; "uint64_t"; "wchar_t"; "char16_t"; "char32_t"].
+  Definition known_type_names : list string :=
+    app arith_type_names ["bool"; "string"; "Vector"; "Map"; "Function"; "Dynamic_Object"; "Object"; "Number"].
+  Inductive pmatch := PMYes | PMNo | PMArith | PMUnsup.
+  Definition param_match (ptype : string) (o : option obj) : pmatch :=
+    if String.eqb ptype "" then PMYes
+    else match o with
+         | Some (ODyn cn _) => if String.eqb ptype "Dynamic_Object" || String.eqb ptype cn then PMYes else PMNo
+         | _ =>
+             if String.eqb ptype "Object" || String.eqb ptype "Number" || String.eqb ptype "size_t" then PMUnsup   (* Boxed_Value / Boxed_Number / a typedef: not modelled *)
+             else if existsb (String.eqb ptype) known_type_names then
+               if String.eqb (script_type_of o) ptype then PMYes
+               else if existsb (String.eqb ptype) arith_type_names && (match o with Some (ONum _ _ _) => true | _ => false end) then PMArith
+               else PMNo
+             else PMNo      (* an unregistered name (a script class): only objects of that class *)
+         end.
+  Fixpoint params_match (ptypes : list string) (objs : list (option obj)) : pmatch :=
+    match ptypes, objs with
+    | t :: tr, o :: or =>
+        match param_match t o, params_match tr or with
+        | PMNo, _ | _, PMNo => PMNo
+        | PMUnsup, _ | _, PMUnsup => PMUnsup
+        | PMArith, _ | _, PMArith => PMArith
+        | PMYes, PMYes => PMYes
+        end
+    | _, _ => PMYes
+    end.
+  (* dispatch(): the number of parameters whose declared Type_Info differs from the argument's (an untyped or class-typed parameter is a Boxed_Value) *)
+  Fixpoint num_diffs (ptypes : list string) (objs : list (option obj)) : nat :=
+    match ptypes, objs with
+    | t :: tr, o :: or =>
+        (if negb (String.eqb t "") && existsb (String.eqb t) known_type_names && String.eqb (script_type_of o) t then 0 else 1) + num_diffs tr or
+    | _, _ => 0
+    end.
+  Fixpoint objs_of (l : list dloc) : prog (list (option obj)) :=
+    match l with [] => Ret [] | d :: r => o <- obj_of d ;; os <- objs_of r ;; Ret (o :: os) end.
+
+  (* Dynamic_Proxy_Function::do_call for one overload: None = does not apply (arity / declared types / guard) *)
+  Definition try_closure (cl : closure) (args : list dloc) : prog (option dloc) :=
+    if negb (Nat.eqb (List.length args) (List.length (cl_params cl))) then Ret None
+    else
+      os <- objs_of args ;;
+      match params_match (cl_ptypes cl) os with
+      | PMNo => Ret None
+      | PMArith => unsup "arithmetic conversion of an argument at dispatch"
+      | PMUnsup => unsup "parameter declared Object/Number/size_t"
+      | PMYes =>
+      ok <- match cl_guard cl with
+            | None => Ret true
+            | Some g =>
+                (* test_guard: only arity_error and bad_boxed_cast mean "does not apply" (so does a non-boolean
+                   guard value, through boxed_cast<bool>); every other exception leaves the call *)
+                Handle (call_closure cl args g)
+                  (fun r => match r with
+                            | inl d => o <- obj_of d ;; match o with Some (OBool b) => Ret b | _ => Ret false end
+                            | inr (FThrow (EStd "bad_boxed_cast" _)) | inr (FThrow (EStd "arity_error" _)) => Ret false
+                            | inr f => Fail f
+                            end)
+            end ;;
+      if ok : bool then d <- call_closure cl args (cl_body cl) ;; Ret (Some d) else Ret None
+      end.
+
+  Fixpoint dispatch_in_order (l : list closure) (args : list dloc) : prog (option dloc) :=
+    match l with
+    | [] => Ret None
+    | cl :: r => x <- try_closure cl args ;; match x with Some d => Ret (Some d) | None => dispatch_in_order r args end
+    end.
+  (* dispatch(): candidates of the right arity, those with fewer differing parameter types first, table order within a group *)
+  Definition dispatch_closures (l : list closure) (args : list dloc) : prog (option dloc) :=
+    os <- objs_of args ;;
+    let right := filter (fun cl => Nat.eqb (List.length (cl_params cl)) (List.length args)) l in
+    let group i := filter (fun cl => Nat.eqb (num_diffs (cl_ptypes cl) os) i) right in
+    dispatch_in_order (flat_map group (seq 0 (S (List.length args)))) args.
+
+  (* an operator function defined by the script (def `-`(string a, string b) { … }): tried when no built-in overload applies *)
+  Definition user_operator (text : string) (l r : dloc) (otherwise : prog dloc) : prog dloc :=
+    fs <- Prim (PGetFuncs text) ;;
+    match fs with
+    | Some cls => x <- dispatch_closures cls [l; r] ;; match x with Some d => Ret d | None => otherwise end
+    | None => otherwise
+    end.
+
   (* operators that are not Boxed_Number operations: dispatch over the (modelled) registered functions *)
   Definition call_operator (text : string) (l r : dloc) : prog dloc :=
     lo <- obj_of l ;; ro <- obj_of r ;;
@@ -121,7 +235,7 @@ Section EVAL.
         else if String.eqb text "+=" then write_through l (OStr (a ++ b)) "+=" ;;; reference_to l
         else match str_cmp text a b with
              | Some x => new_value (OBool x) false true
-             | None => dispatch_error text
+             | None => user_operator text l r (dispatch_error text)
              end
     | Some (OBool a), Some (OBool b) =>
         if String.eqb text "==" then new_value (OBool (Bool.eqb a b)) false true
@@ -130,8 +244,8 @@ Section EVAL.
     | Some (ONum _ _ _), Some (ONum _ _ _) => unsup ("operator " ++ text ++ " through dispatch")
     | Some (OVec _), _ | _, Some (OVec _) | Some (OMap _), _ | _, Some (OMap _) | Some (OFun _), _ | _, Some (OFun _)
     | Some (ODyn _ _), _ | _, Some (ODyn _ _) | Some (OExc _ _ _), _ | _, Some (OExc _ _ _) =>
-        unsup ("operator " ++ text ++ " on containers/functions/objects")
-    | _, _ => dispatch_error text
+        user_operator text l r (unsup ("operator " ++ text ++ " on containers/functions/objects"))
+    | _, _ => user_operator text l r (dispatch_error text)
     end.
 
   (* typed `=` through dispatch (operators::assign<T>), ptr_assign for functions, unknown_assign *)
@@ -605,112 +719,6 @@ Section EVAL.
     cs <- eval_captures caps [] ;;
     let this_cap := existsb (fun x => String.eqb (a_text (child 0 x)) "this") caps in
     new_value (OFun (FClosure (mkclosure "" (map arg_name params) (map arg_type params) (child 2 n) None cs this_cap))) false false.
-
-  Fixpoint add_captures (l : list (string * dloc)) : prog unit :=
-    match l with [] => Ret tt | (k, v) :: r => add_object k v ;;; add_captures r end.
-  Fixpoint add_params (ps : list string) (vs : list dloc) : prog unit :=
-    match ps, vs with
-    | p :: pr, v :: vr => (if String.eqb p "this" then Ret tt else add_object p v) ;;; add_params pr vr
-    | _, _ => Ret tt
-    end.
-
-  (* detail::eval_function: new frame; this, captures, parameters in that order; `return` ends here *)
-  Definition call_closure (cl : closure) (args : list dloc) (body : ast) : prog dloc :=
-    cand <- Prim PThisCandidate ;;
-    let this_obj := match cand with Some d => Some d | None => match args with a :: _ => Some a | [] => None end end in
-    Framed (
-      (match this_obj with
-       | Some t => if cl_this_capture cl then Ret tt else add_object "this" t
-       | None => Ret tt
-       end) ;;;
-      add_captures (cl_caps cl) ;;;
-      add_params (cl_params cl) args ;;;
-      on_fail (Ev body) (fun f => match f with FRet d => Ret d | _ => Fail f end)).
-
-  (* ---- declared parameter types (Param_Types::match) *)
-  Definition script_type_of (o : option obj) : string :=
-    match o with
-    | Some (ONum tn _ _) =>
-        if String.eqb tn "uint" then "unsigned_int" else if String.eqb tn "ulong" then "unsigned_long" else if String.eqb tn "llong" then "long_long"
-        else if String.eqb tn "ullong" then "unsigned_long_long" else if String.eqb tn "ldouble" then "long_double" else tn
-    | Some (OBool _) => "bool" | Some (OStr _) => "string" | Some (OVec _) => "Vector" | Some (OMap _) => "Map"
-    | Some (OFun _) => "Function" | Some (ODyn _ _) => "Dynamic_Object" | Some OVoid => "void" | Some (OExc st _ _) => st | None => ""
-    end.
-  Definition arith_type_names : list string :=
-    ["int"; "double"; "float"; "long"; "long_double"; "unsigned_int"; "unsigned_long"; "long_long"; "unsigned_long_long"; "size_t"; "char";
-     "int8_t"; "int16_t"; "int32_t"; "int64_t"; "uint8_t"; "uint16_t"; "uint32_t"; "uint64_t"; "wchar_t"; "char16_t"; "char32_t"].
-  Definition known_type_names : list string :=
-    app arith_type_names ["bool"; "string"; "Vector"; "Map"; "Function"; "Dynamic_Object"; "Object"; "Number"].
-  Inductive pmatch := PMYes | PMNo | PMArith | PMUnsup.
-  Definition param_match (ptype : string) (o : option obj) : pmatch :=
-    if String.eqb ptype "" then PMYes
-    else match o with
-         | Some (ODyn cn _) => if String.eqb ptype "Dynamic_Object" || String.eqb ptype cn then PMYes else PMNo
-         | _ =>
-             if String.eqb ptype "Object" || String.eqb ptype "Number" || String.eqb ptype "size_t" then PMUnsup   (* Boxed_Value / Boxed_Number / a typedef: not modelled *)
-             else if existsb (String.eqb ptype) known_type_names then
-               if String.eqb (script_type_of o) ptype then PMYes
-               else if existsb (String.eqb ptype) arith_type_names && (match o with Some (ONum _ _ _) => true | _ => false end) then PMArith
-               else PMNo
-             else PMNo      (* an unregistered name (a script class): only objects of that class *)
-         end.
-  Fixpoint params_match (ptypes : list string) (objs : list (option obj)) : pmatch :=
-    match ptypes, objs with
-    | t :: tr, o :: or =>
-        match param_match t o, params_match tr or with
-        | PMNo, _ | _, PMNo => PMNo
-        | PMUnsup, _ | _, PMUnsup => PMUnsup
-        | PMArith, _ | _, PMArith => PMArith
-        | PMYes, PMYes => PMYes
-        end
-    | _, _ => PMYes
-    end.
-  (* dispatch(): the number of parameters whose declared Type_Info differs from the argument's (an untyped or class-typed parameter is a Boxed_Value) *)
-  Fixpoint num_diffs (ptypes : list string) (objs : list (option obj)) : nat :=
-    match ptypes, objs with
-    | t :: tr, o :: or =>
-        (if negb (String.eqb t "") && existsb (String.eqb t) known_type_names && String.eqb (script_type_of o) t then 0 else 1) + num_diffs tr or
-    | _, _ => 0
-    end.
-  Fixpoint objs_of (l : list dloc) : prog (list (option obj)) :=
-    match l with [] => Ret [] | d :: r => o <- obj_of d ;; os <- objs_of r ;; Ret (o :: os) end.
-
-  (* Dynamic_Proxy_Function::do_call for one overload: None = does not apply (arity / declared types / guard) *)
-  Definition try_closure (cl : closure) (args : list dloc) : prog (option dloc) :=
-    if negb (Nat.eqb (List.length args) (List.length (cl_params cl))) then Ret None
-    else
-      os <- objs_of args ;;
-      match params_match (cl_ptypes cl) os with
-      | PMNo => Ret None
-      | PMArith => unsup "arithmetic conversion of an argument at dispatch"
-      | PMUnsup => unsup "parameter declared Object/Number/size_t"
-      | PMYes =>
-      ok <- match cl_guard cl with
-            | None => Ret true
-            | Some g =>
-                (* test_guard: only arity_error and bad_boxed_cast mean "does not apply" (so does a non-boolean
-                   guard value, through boxed_cast<bool>); every other exception leaves the call *)
-                Handle (call_closure cl args g)
-                  (fun r => match r with
-                            | inl d => o <- obj_of d ;; match o with Some (OBool b) => Ret b | _ => Ret false end
-                            | inr (FThrow (EStd "bad_boxed_cast" _)) | inr (FThrow (EStd "arity_error" _)) => Ret false
-                            | inr f => Fail f
-                            end)
-            end ;;
-      if ok : bool then d <- call_closure cl args (cl_body cl) ;; Ret (Some d) else Ret None
-      end.
-
-  Fixpoint dispatch_in_order (l : list closure) (args : list dloc) : prog (option dloc) :=
-    match l with
-    | [] => Ret None
-    | cl :: r => x <- try_closure cl args ;; match x with Some d => Ret (Some d) | None => dispatch_in_order r args end
-    end.
-  (* dispatch(): candidates of the right arity, those with fewer differing parameter types first, table order within a group *)
-  Definition dispatch_closures (l : list closure) (args : list dloc) : prog (option dloc) :=
-    os <- objs_of args ;;
-    let right := filter (fun cl => Nat.eqb (List.length (cl_params cl)) (List.length args)) l in
-    let group i := filter (fun cl => Nat.eqb (num_diffs (cl_ptypes cl) os) i) right in
-    dispatch_in_order (flat_map group (seq 0 (S (List.length args)))) args.
 
   Definition call_single (cl : closure) (args : list dloc) (fname : string) : prog dloc :=
     if negb (Nat.eqb (List.length args) (List.length (cl_params cl))) then
